@@ -100,6 +100,9 @@ pub struct Case {
     pub bystander: bool,
     pub tokio_seed: u64,
     pub choices: Vec<u8>,
+    /// (handshake stage) the open the peer sends after the attack advertises idle-time-out 0
+    #[serde(default)]
+    pub follow_open_idle0: bool,
 }
 
 const HARMLESS: Attack = Attack::Cat { v: 29, a: 3, b: 1 };
@@ -194,8 +197,8 @@ fn stage() -> BoxedStrategy<Stage> {
 }
 
 pub fn case_strategy() -> BoxedStrategy<Case> {
-    (0u8..2, stage(), attack(), prop_oneof![6 => Just(1u8), 1 => Just(2u8), 1 => Just(5u8)], prop_oneof![Just(512u32), Just(4096), Just(65536)], prop_oneof![3 => Just(2048u32), 1 => Just(3u32)], prop::bool::weighted(0.15), any::<u64>(), proptest::collection::vec(any::<u8>(), 0..6))
-        .prop_map(|(role, stage, attack, repeat, ep_mfs, ep_window, bystander, tokio_seed, choices)| Case { role, stage, attack, repeat, ep_mfs, ep_window, bystander, tokio_seed, choices })
+    (0u8..2, stage(), attack(), prop_oneof![6 => Just(1u8), 1 => Just(2u8), 1 => Just(5u8)], prop_oneof![Just(512u32), Just(4096), Just(65536)], prop_oneof![3 => Just(2048u32), 1 => Just(3u32)], prop::bool::weighted(0.15), any::<u64>(), (proptest::collection::vec(any::<u8>(), 0..6), prop::bool::weighted(0.3)))
+        .prop_map(|(role, stage, attack, repeat, ep_mfs, ep_window, bystander, tokio_seed, (choices, follow_open_idle0))| Case { role, stage, attack, repeat, ep_mfs, ep_window, bystander, tokio_seed, choices, follow_open_idle0 })
         .boxed()
 }
 
@@ -874,7 +877,7 @@ async fn run_handshake(c: &Case) -> Result<Info, String> {
     };
     let (alog, aerrs) = if cooperative {
         if !attack_opened {
-            let _ = peer.send_frame(0, &Peer::open_body("verif-peer", Some(65536), None, None), &[]).await;
+            let _ = peer.send_frame(0, &Peer::open_body("verif-peer", Some(65536), None, if c.follow_open_idle0 { Some(0) } else { None }), &[]).await;
         }
         if role == 1 && ep_close.is_none() && !atk.peer_sent_close {
             let _ = peer.send_frame(40, &Peer::begin_body(None, 0, 100_000, 100_000, None), &[]).await;
@@ -1467,6 +1470,7 @@ pub fn fuzz_case(data: &[u8]) -> Case {
         bystander: false,
         tokio_seed: (data[0] >> 1) as u64,
         choices: vec![],
+        follow_open_idle0: data[2] & 0x40 != 0,
     }
 }
 
@@ -1563,7 +1567,7 @@ fn run(ctx: &ShardCtx, rep: &mut Report) {
         for role in 0..2u8 {
             for stage in [Stage::Header, Stage::Opened, Stage::Begun, Stage::RcvAttached, Stage::BothAttached, Stage::MidDelivery, Stage::SendPending, Stage::Closing, Stage::Ending, Stage::Detaching] {
                 let attack = if stage == Stage::Header { HARMLESS_OPEN } else { HARMLESS };
-                let c = Case { role, stage, attack, repeat: 1, ep_mfs: 4096, ep_window: 2048, bystander: true, tokio_seed: ctx.seed, choices: vec![] };
+                let c = Case { role, stage, attack, repeat: 1, ep_mfs: 4096, ep_window: 2048, bystander: true, tokio_seed: ctx.seed, choices: vec![], follow_open_idle0: false };
                 rep.evaluations += 1;
                 match guarded(|| run_case(&c)) {
                     Ok(Ok(_)) => {}
